@@ -8,7 +8,7 @@
 (* preceded the offending one (that is what the code does; the property does not forbid   *)
 (* it).  Construct/Copy/Pickle replace the object under test by the new object, so the    *)
 (* remainder of a history runs on copies and unpickled instances too.                     *)
-EXTENDS Integers, Sequences, FiniteSets, TLC
+EXTENDS FixedDictOps, TLC
 
 CONSTANTS Declared, Undeclared, Vals, MaxLen, MaxArg
 
@@ -30,43 +30,13 @@ SeqsUpTo(n) == IF n = 0 THEN {<<>>}
                     S \cup {Append(s, k) : s \in {t \in S : Len(t) = n - 1}, k \in AllKeys}
 ArgLists == {s \in SeqsUpTo(MaxArg) : \A i, j \in 1..Len(s) : i # j => s[i] # s[j]}
 
-Range(s) == {s[i] : i \in 1..Len(s)}
-
-(* assignment of value v to every key of `ks` on top of mapping m *)
-Assign(m, ks, v) == [k \in (DOMAIN m) \cup ks |-> IF k \in ks THEN v ELSE m[k]]
-
-(* index of the first undeclared key of an argument list, 0 if none *)
-FirstBad(s) == IF \E i \in 1..Len(s) : s[i] \in Undeclared
-               THEN CHOOSE i \in 1..Len(s) : s[i] \in Undeclared /\ \A j \in 1..(i-1) : s[j] \in Declared
-               ELSE 0
-
-Prefix(s, n) == {s[i] : i \in 1..n}
-
 Ops ==
        [op : {"construct"}, ks : ArgLists, v : Vals]
   \cup [op : {"setitem", "setdefault"}, k : AllKeys, v : Vals]
   \cup [op : {"update_dict", "update_pairs", "update_kwargs", "ior"}, ks : ArgLists, v : Vals]
   \cup [op : {"copy", "pickle"}]
 
-(* --- the design: what each operation must do ---------------------------------------- *)
-Post(o) ==
-  CASE o.op = "construct" ->
-         \* construction from a mapping: rejected as a whole if any key is undeclared
-         IF Range(o.ks) \subseteq Declared
-         THEN [d |-> Assign(<<>>, Range(o.ks), o.v), res |-> "ok"]
-         ELSE [d |-> d, res |-> "keyerror"]          \* no new object: keep the old one
-    [] o.op = "setitem" ->
-         IF o.k \in Declared THEN [d |-> Assign(d, {o.k}, o.v), res |-> "ok"]
-         ELSE [d |-> d, res |-> "keyerror"]
-    [] o.op = "setdefault" ->
-         IF o.k \in Declared
-         THEN [d |-> IF o.k \in DOMAIN d THEN d ELSE Assign(d, {o.k}, o.v), res |-> "ok"]
-         ELSE [d |-> d, res |-> "keyerror"]
-    [] o.op \in {"update_dict", "update_pairs", "update_kwargs", "ior"} ->
-         LET b == FirstBad(o.ks) IN
-         IF b = 0 THEN [d |-> Assign(d, Range(o.ks), o.v), res |-> "ok"]
-         ELSE [d |-> Assign(d, Prefix(o.ks, b - 1), o.v), res |-> "keyerror"]
-    [] o.op \in {"copy", "pickle"} -> [d |-> d, res |-> "ok"]
+Post(o) == PostP(d, Declared, o)
 
 Init == /\ d = <<>> /\ typ = "fixed" /\ res = "ok"
         /\ pre = <<>> /\ inp = [op |-> "init"] /\ hist = <<>>
@@ -86,11 +56,7 @@ Spec == Init /\ [][Next]_vars
 OnlyDeclared == DOMAIN d \subseteq Declared
 SameType     == typ = "fixed"
 \* a rejected operation never introduces an undeclared key, an accepted one names only declared keys
-RejectIffUndeclared ==
-  [][LET o == inp' IN
-        (res' = "keyerror") = (CASE o.op \in {"setitem", "setdefault"} -> o.k \in Undeclared
-                                 [] o.op \in {"copy", "pickle"} -> FALSE
-                                 [] OTHER -> Range(o.ks) \cap Undeclared # {})]_vars
+RejectIffUndeclared == [][(res' = "keyerror") = NamesUndeclared(inp', Declared)]_vars
 CopyPickleIdentity == [][(inp'.op \in {"copy", "pickle"}) => (d' = d /\ typ' = typ)]_vars
 
 View == <<pre, inp, d, typ, res>>
